@@ -64,6 +64,9 @@ Definition checkN (k : caseN) : bool :=
 (* ---- ResizingOperator: range construction, offset, call / adjoint / inverse ---- *)
 From Verif Require Import Base.Vec Gen.ResizeDiscr C16.ModelOp.
 Record caseOp := { o_adjguard : bool; o_m : pmode; o_c : Q;
+                   (* the user's pad_const cast to each dtype (tag 0 float64, 1 float32, 2 int64), cast twice
+                      (range dtype, then domain dtype: what .inverse pads with), and the stored op.pad_const *)
+                   o_ccast : list Q; o_cinv : list (list Q); o_padconst : Q;
                    o_dom : list (Q * Q * Z * (bool * bool));        (* min, max, n, nodes_on_bdry *)
                    o_nnew : list Z; o_off : list (option Z); o_flags : list (bool * bool);
                    o_rmin : list Q; o_rmax : list Q; o_rcs : list Q; o_offset : list Z;
@@ -107,7 +110,11 @@ Definition checkOp (k : caseOp) : bool :=
   let ish := map (fun d => Z.to_nat (a_n (mk_axis d))) (o_dom k) in
   let osh := map Z.to_nat (o_nnew k) in
   let offs := model_offsets (o_dom k) (o_nnew k) (o_off k) in
-  let linear := negb (pmode_eqb (o_m k) PConstant) || Qeq_bool (o_c k) 0 in
+  (* pad_const is stored in the RANGE dtype; linear iff not constant mode or the stored value is 0 *)
+  let rdt := snd (o_dtype k) in let ddt := fst (fst (o_dtype k)) in
+  let padc := nth rdt (o_ccast k) 0 in
+  let padc_inv := nth ddt (nth rdt (o_cinv k) []) 0 in
+  let linear := negb (pmode_eqb (o_m k) PConstant) || Qeq_bool padc 0 in
   Qsclose optol 0 (o_rmin k) (map a_min axes)
   && Qsclose optol 0 (o_rmax k) (map a_max axes)
   && Qsclose optol 0 (o_rcs k) (map cell_side axes)
@@ -115,7 +122,8 @@ Definition checkOp (k : caseOp) : bool :=
   && beq (o_islinear k) linear
   && all2 Nat.eqb (o_axes k)
        (filter (fun i => negb (Nat.eqb (nth i ish 0%nat) (nth i osh 0%nat))) (seq 0 (length ish)))
-  && out_eq (resizeN (o_m k) Forward (o_c k) true ish (o_x k) osh offs) (o_fx k)
+  && Qeq_bool (o_padconst k) padc
+  && out_eq (resizeN (o_m k) Forward padc true ish (o_x k) osh offs) (o_fx k)
   && ((* [o_adjguard]: this operator's .adjoint is refused because a space is not uniformly
          weighted -- only in the variant of the code with the proposed fix for finding
          adjoint-nodes-on-bdry; measured by the harness (is_uniformly_weighted of both spaces) *)
@@ -123,14 +131,14 @@ Definition checkOp (k : caseOp) : bool :=
       then out_eq (resizeN (o_m k) Adjoint 0 true osh (o_y k) ish offs) (o_ay k)
       else match o_ay k with IOtherErr => true | _ => false end)
   && match o_fx k with
-     | IOk fx => out_eq (resizeN (o_m k) Forward (o_c k) true osh fx ish offs) (o_inv k)
+     | IOk fx => out_eq (resizeN (o_m k) Forward padc_inv true osh fx ish offs) (o_inv k)
      | _ => true
      end
   && o_kept k
   && (let '(dw, kw, rw) := o_w k in Qeq_bool rw (range_attr kw dw))
   && (let '(de, ke, re) := o_exp k in Qeq_bool re (range_attr ke de))
   && (let '(dd, kd, rd) := o_dtype k in Nat.eqb rd (range_attr kd dd))
-  && match o_inner k, resizeN (o_m k) Forward (o_c k) true ish (o_x k) osh offs,
+  && match o_inner k, resizeN (o_m k) Forward padc true ish (o_x k) osh offs,
            resizeN (o_m k) Adjoint 0 true osh (o_y k) ish offs with
      | Some (ir, id), Ok fx, Ok ay =>
          let '(dw, _, rw) := o_w k in
